@@ -258,6 +258,20 @@ Proof.
   - cbn. discriminate.
 Qed.
 
+(* metadata is copied when it is set: whatever the handler writes to its maps afterwards, the
+   stream's header / trailer stays what it was given at that moment *)
+Theorem md_copied_at_set_time : forall cur a h ws,
+  (cur = None \/ exists v, cur = Some (MVal v)) ->
+  mget (md_set false cur a h) (apply_mwrites ws h) =
+  (match cur with None => [] | Some t => mget t h end) ++ mread a h.
+Proof.
+  intros cur a h ws [-> | [v ->]]; reflexivity.
+Qed.
+
+Lemma md_alias_not_copied : exists a h ws,
+  mget (md_set true None a h) (apply_mwrites ws h) <> mread a h.
+Proof. exists 1, [(1, [(1, 2)])], [(1, [(1, 90)])]. cbn. discriminate. Qed.
+
 (* ---- the judge accepts what the models produce ---- *)
 
 Lemma list_eqb_refl : forall A (e : A -> A -> bool), (forall x, e x x = true) -> forall l, list_eqb e l l = true.
